@@ -673,6 +673,47 @@ def check(run):
                          f"container gets for that fit (in {diffs})",
                          theorem="C16_crash_safe")
             shutil.rmtree(sc3.dir, ignore_errors=True)
+        # --- two measurement files that share their file name (different
+        # folders, different content): both ratings load back
+        try:
+            from nanite import IndentationGroup
+            from nanite.rate import io as _io
+            dd = common.scratch() / "c16-same-name"
+            shutil.rmtree(dd, ignore_errors=True)
+            twins = []
+            for j in (0, 1):
+                (dd / f"sample_{j}").mkdir(parents=True)
+                dst = dd / f"sample_{j}" / "curve-001.jpk-force"
+                # (two different recordings)
+                shutil.copy(DATA / [single, "fmt-jpk-fd_single_tilted-"
+                                    "baseline-drift-mitotic_2021-01-29"
+                                    ".jpk-force"][j], dst)
+                twins.append(fit_curve(IndentationGroup(dst)[0],
+                                       **copy.deepcopy(FITS[j])))
+            h5p = dd / "ratings.h5"
+            for j, tw in enumerate(twins):
+                _io.save_hdf5(h5p, tw, 4 + j, "erin", f"twin {j}")
+            run.case({"scenario": "same-file-name", "curves": 2},
+                     kind="save:same-file-name")
+            try:
+                rs = _io.load_hdf5(h5p)
+                got = sorted((r["comment"], float(r["rating"])) for r in rs)
+                ok = got == [("twin 0", 4.0), ("twin 1", 5.0)] and all(
+                    np.allclose(np.asarray(r["data_set"]["force"]),
+                                np.asarray(twins[int(r["comment"][-1])][
+                                    "force"]), equal_nan=True) for r in rs)
+                why = None if ok else f"loaded {got}"
+            except BaseException as e:
+                why = f"load raised {type(e).__name__}: {e}"
+            if why:
+                run.failing(SITE, "same-file-name", "two measurement files "
+                            "named alike in different folders stored in one "
+                            "container: " + why, payload={"kind": "rerun"},
+                            theorem="C16_roundtrip")
+            shutil.rmtree(dd, ignore_errors=True)
+        except BaseException as e:
+            run.obligation("same-file-name-scenario-completed", False,
+                           f"{type(e).__name__}: {e}")
         # --- round trips
         cases = [("single-%d" % i, load_curves(single)[0], kw)
                  for i, kw in enumerate(FITS)]
